@@ -112,6 +112,7 @@ ALLOWED_SITES = {
     "pkg/runtime/verif_access.go:VerifScopeInfo": "verif hook; result sorted",
     "pkg/server/verif_hooks.go:*": "verif hook: copies the master's table into a snapshot map",
     "pkg/value/value_util.go:containsElement": "existential search (is the container reachable?): the boolean answer does not depend on the visiting order",
+    "pkg/runtime/vm.go:OwnsType": "existential search (is the type one of this execution's predefined values?): the boolean answer does not depend on the visiting order",
     "pkg/runtime/module.go:checkCircularDepedencyDFS": "boolean answer independent of visiting order (C15_dfs_iff_cycle)",
     "pkg/error/io_error.go:ReadFileError": "lookup only",
     "pkg/server/http_handler.go:*": "request headers / query: C16",
